@@ -271,7 +271,9 @@ def unlat(s):
 TRICKY_COMMS = [b"", b"a", b"cat", b"a b", b"a)b", b"a(b", b"(sd-pam)", b"((((", b"))))", b") (", b" (", b"a (b",
                 b"foo (bar)", b"a) S 1 (b", b"a) R 1 2 3", b"x\ny", b"\xff\xfe", b"Uid:\t7\t8\t9", b"Threads:\t77",
                 b"Gid:\t1\t2\t3", b")", b"(", b" ", b"a) ", b"123456789012345", b"ctxt_switches:\t5", b") R 0 (",
-                b"kworker/0:1-ev", b"a)b)c", b"a(b(c", b"x (y) z"]
+                b"kworker/0:1-ev", b"a)b)c", b"a(b(c", b"x (y) z",
+                # the kernel escapes only \n and \\ in the Name: line: a carriage return (or \x0b, \x0c) is published raw
+                b"x\rUid:\t0\t0\t0", b"y\rGid:\t0\t0\t0", b"\rThreads:\t9", b"a\x0bb\x0cc"]
 
 
 def stat_fields(rng, n=52, state=b"S"):
@@ -409,16 +411,29 @@ def c06_threads(model, meta):
     rng = random.Random(len(comms))
     files = {}
     want = []
+    gone = {int(x) for x in model.get("gone", [])}      # positions of threads that exit between the listing and their read
+    gone_paths = set()
     for k, comm in enumerate(comms):
         tid = pid + k
         F = stat_fields(rng, rng.choice([52, 44]))
         files[f"{pid}/task/{tid}/stat"] = build_stat(tid, comm, F)
-        want.append((tid, int(F[11]) / _pslinux.CLOCK_TICKS, int(F[12]) / _pslinux.CLOCK_TICKS))
+        if k in gone and len(comms) > 1:
+            gone_paths.add(f"/{pid}/task/{tid}/stat")
+        else:
+            want.append((tid, int(F[11]) / _pslinux.CLOCK_TICKS, int(F[12]) / _pslinux.CLOCK_TICKS))
     files[f"{pid}/stat"] = build_stat(pid, comms[0], stat_fields(rng))
+    real_ob = _pslinux.open_binary
+
+    def ob(fname, *a, **k):
+        if any(fname.endswith(g) for g in gone_paths):
+            raise FileNotFoundError(2, "No such file or directory", fname)
+        return real_ob(fname, *a, **k)
+
     with fake_procfs(files):
         p = _pslinux.Process(pid)
         try:
-            res, exc = p.threads(), None
+            with mock.patch.object(_pslinux, "open_binary", ob):
+                res, exc = p.threads(), None
         except Exception as e:  # noqa: BLE001
             res, exc = None, e
     got = sorted((t.id, t.user_time, t.system_time) for t in res) if res is not None else None
@@ -439,9 +454,13 @@ def c06_threads_search(meta, seed, budget):
     for c in TRICKY_COMMS:
         yield {"comms": [lat(c)]}
         n += 1
+    for gone in ([0], [1], [0, 2], [3], [1, 2]):       # a thread in the middle of the list vanishes: the others keep THEIR counters
+        yield {"comms": [lat(b"t%d" % i) for i in range(4)], "gone": gone}
+        n += 1
     while n < budget:
         k = rng.randrange(1, 6)
-        yield {"comms": [lat(bytes(rng.choice(b"ab() \n\t:)(") for _ in range(rng.randrange(0, 16)))) for _ in range(k)]}
+        yield {"comms": [lat(bytes(rng.choice(b"ab() \n\t:)(") for _ in range(rng.randrange(0, 16)))) for _ in range(k)],
+               "gone": [rng.randrange(0, k)] if n % 4 == 0 else []}
         n += 1
 
 
